@@ -16,7 +16,7 @@ CLASS_LAYER = [PA + 'Pauli.__matmul__#Pauli', PA + 'Pauli.__neg__', PA + 'Pauli.
                PA + 'PauliList.rotate_by#nomask', PA + 'PauliList.transform_by#nomask', PA + 'PauliList.rotate_by#mask', PA + 'PauliList.transform_by#mask', ST + 'CliffordMap.copy', ST + 'CliffordMap.compose',
                ST + 'CliffordMap.to_state#r', ST + 'CliffordMap.to_state#none', ST + 'StabilizerState.copy', ST + 'StabilizerState.to_map',
                ST + 'StabilizerState.expect#list', ST + 'identity_map', ST + 'StabilizerState.measure#list', ST + 'StabilizerState.postselect',
-               ST + 'StabilizerState.expect#state', ST + 'CliffordMap.inverse', ST + 'clifford_rotation_map', ST + 'zero_state', ST + 'maximally_mixed_state', ST + 'StabilizerState.entropy#mask', ST + 'StabilizerState.entropy#qubits', ST + 'random_pauli_map', 'pyclifford/circuit.py::clifford_rotation_gate#noqubits', PA + 'Pauli.rotate_by#nomask', PA + 'Pauli.transform_by#nomask', 'pyclifford/circuit.py::MeasureLayer.forward', PA + 'PauliList.__neg__', PA + 'PauliList.rotate_by#state', PA + 'PauliList.transform_by#state', PA + 'PauliPolynomial.__matmul__#poly', PA + 'Pauli.__matmul__#Monomial',
+               ST + 'StabilizerState.expect#state', ST + 'CliffordMap.inverse', ST + 'clifford_rotation_map', ST + 'zero_state', ST + 'maximally_mixed_state', ST + 'StabilizerState.entropy#mask', ST + 'StabilizerState.entropy#qubits', ST + 'random_pauli_map', 'pyclifford/circuit.py::clifford_rotation_gate#noqubits', 'pyclifford/circuit.py::CliffordGate.compile#generator', PA + 'PauliList.__getitem__#int', PA + 'Pauli.rotate_by#nomask', PA + 'Pauli.transform_by#nomask', 'pyclifford/circuit.py::MeasureLayer.forward', PA + 'PauliList.__neg__', PA + 'PauliList.rotate_by#state', PA + 'PauliList.transform_by#state', PA + 'PauliPolynomial.__matmul__#poly', PA + 'Pauli.__matmul__#Monomial',
                'pyclifford/circuit.py::CliffordGate.forward#generator_global', 'pyclifford/circuit.py::CliffordGate.backward#generator_global',
                'pyclifford/circuit.py::CliffordGate.forward#map_global'] + GATES[3:] + LOCAL_GATES + LOCAL_STATE + \
               [PA + '%s.__rmul__#%s' % (c, t) for c in ('Pauli', 'PauliList') for t in ('1', 'i', 'm1', 'mi')]
@@ -131,7 +131,7 @@ def C09(run):
 
 
 def C10(run):
-    run.deductive(keys=[GATES[0], GATES[1], GATES[4], U + 'clifford_rotate', PA + 'Pauli.__neg__', ST + 'CliffordMap.inverse', U + 'z2inv'] + LOCAL_GATES, lemmas=['rotate_twice', 'dot_shift', 'dot_add', 'dot_unit', 'ordg_is_dot'] + MASK_LEMMAS)
+    run.deductive(keys=[GATES[0], GATES[1], GATES[4], U + 'clifford_rotate', PA + 'Pauli.__neg__', ST + 'CliffordMap.inverse', U + 'z2inv', 'pyclifford/circuit.py::CliffordGate.compile#generator', ST + 'clifford_rotation_map'] + LOCAL_GATES, lemmas=['rotate_twice', 'dot_shift', 'dot_add', 'dot_unit', 'ordg_is_dot'] + MASK_LEMMAS)
     run.bounded_check('c10_inverse', _b().c10_inverse, Nmax=3, programs=q(run, 40, 1500), maxlen=q(run, 5, 9))
     return 'other', ('deductive (all N, all qubit tuples): backward of a generator gate is the rotation by minus the generator - which undoes the '
                      'rotation (lemma rotate_twice: the two product phases cancel) - and backward of a map gate is the (masked) transformation by '
@@ -221,10 +221,10 @@ def C19(run):
 
 
 def C20(run):
-    run.deductive(keys=[U + 'pauli_tokenize', PA + 'Pauli.__neg__', PA + 'PauliList.__neg__'] +
+    run.deductive(keys=[U + 'pauli_tokenize', PA + 'Pauli.__neg__', PA + 'PauliList.__neg__', PA + 'PauliList.__getitem__#int'] +
                   [PA + '%s.__rmul__#%s' % (c, t) for c in ('Pauli', 'PauliList') for t in ('1', 'i', 'm1', 'mi')], lemmas=[])
     run.bounded_check('c20_formats', _b().c20_formats, Nmax=q(run, 3, 5))
-    return 'other', ('deductive (all N, L): pauli_tokenize produces exactly the documented token codes; bounded and exhaustive per N: all '
+    return 'other', ('deductive (all N, L): pauli_tokenize produces exactly the documented token codes, selection by integer, negation and the four unit multiples are the documented list / phase arithmetic; bounded and exhaustive per N: all '
                      'strings x phases x accepted formats, print/parse and tokenize/parse round trips, indexing, negation, unit multiples')
 
 
